@@ -4,6 +4,7 @@ use vh::posref::{judge_call, same_grouping, Judgement};
 use vh::rng::Hasher;
 use vh::sched::{Controller, Mode, Token};
 use vh::trk::*;
+use vh::watchdog::Watchdog;
 use vh::{json, Cli, Report, Rng};
 
 #[derive(Clone, Debug)]
@@ -35,7 +36,11 @@ struct RunOut {
     epochs: Vec<usize>,
 }
 
-fn run(cfg: &Cfg, calls: &[(u64, Vec<Det>)], plan: &Plan, ctl: Option<&Controller>, rep: &mut Report, keep_pre: bool) -> RunOut {
+fn run(cfg: &Cfg, calls: &[(u64, Vec<Det>)], plan: &Plan, ctl: Option<&Controller>, rep: &mut Report, keep_pre: bool, wd: Option<&Watchdog>) -> RunOut {
+    let gated = matches!(plan, Plan::WorkerLast(_) | Plan::WorkerFirst(_));
+    if let (Some(w), false) = (wd, gated) {
+        w.arm(format!("cfg={:?} plan={:?}", cfg, plan));
+    }
     let mut trk = AnyTracker::new(cfg);
     let mut out = RunOut { recs: vec![], pres: vec![], epochs: vec![] };
     for (scene, dets) in calls {
@@ -68,6 +73,13 @@ fn run(cfg: &Cfg, calls: &[(u64, Vec<Det>)], plan: &Plan, ctl: Option<&Controlle
             }
         }
         out.recs.push(r);
+        if let Some(w) = wd {
+            w.beat();
+        }
+    }
+    drop(trk);
+    if let Some(w) = wd {
+        w.disarm();
     }
     out
 }
@@ -78,31 +90,42 @@ fn main() {
     rep.note("rule", json!("case = Sort / VisualSort history of 20..50 predict calls (crowd / convoy / crossing / random presets over 1..2 scenes, no bit-identical detections). Reference run: 1 shard, no perturbation. The same history is then run for every shard count 2..8 under several schedules installed at the guarded worker schedule points: free, seeded random delay plans, and gate scripts that force a chosen worker to deliver all of its distance chunks last (or first), so the arrival order of the partial results - which feeds matrix row/column order and hash-map insertion order - is varied systematically. Records must be identical to the reference, track ids included. A grouping difference is handed to the explain-divergence oracle (violation unless both outcomes are valid optimal associations per the C02 / C12 references = near tie, counted); equal grouping with different numbers or ids is always a violation. Non-trivial: (history, shard count, plan) runs with >= 2 shards whose calls had >= 2 candidates; distinct chunk-arrival-order signatures are counted."));
     rep.note("assumptions", json!(["inputs without exact ties (generic float positions); residual near-ties are recognised by the reference objective and counted, capped at 0.1% of compared calls"]));
     let ctl = if cli.small { None } else { Some(Controller::install()) };
+    let wd = if cli.small { None } else { Some(Watchdog::start(&cli, "C05", ctl.clone())) };
     let n = cli.cases(56, 1500);
     for idx in cli.index_range(n) {
         let mut rng = Rng::for_case(cli.seed, cli.shard, idx);
         let kind = if idx % 3 == 2 { Kind::Visual } else { Kind::Sort };
+        // (the case index is per process, so rare variants are drawn, not taken modulo)
+        let wide = rng.chance(0.15);
         let mut cfg = gen_cfg(&mut rng, kind);
         cfg.max_idle = 1 + rng.usize(3);
         cfg.shards = 1;
+        let low_conf = rng.chance(0.2);
+        if low_conf && rng.chance(0.7) {
+            // very low confidences under the lowest admissible floor: Mahalanobis weights (100 - d2) / conf reach 1e4
+            cfg.pos = PosMetric::Maha;
+            cfg.min_conf = 0.01;
+        }
         let w = WorldOpts {
             scenes: 1 + rng.usize(2),
             same_region: rng.chance(0.3),
-            preset: *rng.pick(&["crowd", "convoy", "crossing", "random", "lookalikes"]),
+            preset: if wide { "random" } else { *rng.pick(&["crowd", "convoy", "crossing", "random", "lookalikes"]) },
             rotated: rng.chance(0.2),
             features: kind.is_visual(),
             feat_dim: 4,
             duplicates: false,
-            nobj: 2 + rng.usize(6),
+            // about every 7th history has wide frames (36..45 objects): shards x detections exceeds a few hundred partial results
+            nobj: if wide { 36 + rng.usize(10) } else { 2 + rng.usize(6) },
             steps: 40,
             low_quality: false,
             avoid_coincident: kind.is_visual() && (cfg.vis.own_use + cfg.vis.own_collect > 0.0),
+            low_conf,
         };
-        let h = HistOpts { len: if cli.small { 3 } else { 20 + rng.usize(31) }, lifecycle_ops: false, clear_wasted: false, auto_waste_ops: false, batches: false, empty_calls: true };
+        let h = HistOpts { len: if cli.small { 3 } else if wide { 6 } else { 20 + rng.usize(31) }, lifecycle_ops: false, clear_wasted: false, auto_waste_ops: false, batches: false, empty_calls: true };
         let ops = gen_history(&mut rng, &w, &h);
         let calls: Vec<(u64, Vec<Det>)> = ops.iter().filter_map(|o| if let Op::Predict { scene, dets } = o { Some((*scene, dets.clone())) } else { None }).collect();
         rep.eval();
-        let base = run(&cfg, &calls, &Plan::Free, None, &mut rep, true);
+        let base = run(&cfg, &calls, &Plan::Free, None, &mut rep, true, wd.as_deref());
         let shard_counts: Vec<usize> = if cli.small { vec![3] } else { (2..=8).collect() };
         'variants: for shards in shard_counts {
             let mut c2 = cfg.clone();
@@ -119,7 +142,7 @@ fn main() {
                 plans.truncate(1);
             }
             for plan in plans {
-                let out = run(&c2, &calls, &plan, ctl.as_deref(), &mut rep, false);
+                let out = run(&c2, &calls, &plan, ctl.as_deref(), &mut rep, false, wd.as_deref());
                 rep.count("variant_runs");
                 let mut map: HashMap<u64, u64> = HashMap::new();
                 let mut rev: HashMap<u64, u64> = HashMap::new();
